@@ -66,7 +66,7 @@ UpdIntegrateCall(m, e, tr) ==
     [m EXCEPT !.frames = Append(@, [target |-> e.target, finite |-> e.finite, dir |-> e.dir, depth |-> e.depth,
                                     c0 |-> e.s.counter, nfev0 |-> e.s.nfev, ncb |-> e.ncb, nevents |-> e.nevents,
                                     atTarget |-> e.atTarget, steps |-> 0, calls |-> 0, dtmCall |-> -1, terminated |-> FALSE, term |-> e.term,
-                                    lastHm |-> -1, lastFull |-> FALSE, cbAssigned |-> FALSE]),
+                                    lastHm |-> -1, lastFull |-> FALSE, lastDtm |-> -1, cbAssigned |-> FALSE]),
               !.opDir = IF e.depth = 1 THEN e.dir ELSE @,
               !.opPiece0 = IF e.depth = 1 THEN Len(m.pieces) ELSE @,   \* dense pieces stored when the call was made
               !.opNoop = IF e.depth = 1 THEN e.atTarget ELSE @,     \* a call made at its target changes nothing (C13): not even the status
@@ -89,7 +89,7 @@ UpdIntegCall(m, e, tr) ==
     [m EXCEPT !.call = [t |-> e.t, h |-> e.h, hm |-> e.hm, y |-> e.y, attempts |-> << >>, lastDT |-> 0, lastDTm |-> 0,
                         redo |-> "na", newton |-> "na", newtonFailed |-> FALSE, nret |-> 0],
               !.frames = [@ EXCEPT ![Len(@)].calls = @ + 1, ![Len(@)].dtmCall = IF Top(m).calls = 0 THEN e.s.dtm ELSE @,
-                                   ![Len(@)].lastHm = e.hm, ![Len(@)].lastFull = (e.h = e.s.dt)],
+                                   ![Len(@)].lastHm = e.hm, ![Len(@)].lastFull = (e.h = e.s.dt), ![Len(@)].lastDtm = e.s.dtm],
               !.cbDue = IF Top(m).depth = 1 THEN FALSE ELSE @,
               !.cbSeen = IF Top(m).depth = 1 THEN << >> ELSE @,
               !.cbDtPending = IF Top(m).depth = 1 THEN FALSE ELSE @]
@@ -229,10 +229,11 @@ ChkIntegrateRet(m, e, tr) ==
     \cup (IF f.depth = 1 /\ ~f.atTarget /\ ~f.terminated /\ e.s.status \notin {"done", "event"} THEN {"C03.StatusReportsSuccess"} ELSE {})
     \cup (IF f.depth = 1 /\ f.ncb > 0 /\ m.cbDue /\ m.cbSeen # [k \in 1..f.ncb |-> k - 1] THEN {"C20.CallbacksOncePerStepInOrder"} ELSE {})
     \cup (IF Some(m.ret) THEN {"C05.AcceptedStepDropped"} ELSE {})
-    \* a fixed-step run that was stopped by a terminal event found in a full (not clamped) step goes on with the requested step: the shorter
-    \* steps taken to land on the event are not carried over (no user intervention: no callback assigned a step during the call)
-    \cup (IF f.depth = 1 /\ f.terminated /\ m.fam \in {"fixed", "split", "fixedimp"} /\ f.lastFull /\ ~f.cbAssigned /\ f.lastHm # -1
-             /\ e.s.dtm # f.lastHm
+    \* a fixed-step run that was stopped by a terminal event goes on with the requested step - the step in force when the step that
+    \* met the event was requested, be that step a full one or the clamped last one: the shorter steps taken to land on the event are
+    \* not carried over (no user intervention: no callback assigned a step during the call)
+    \cup (IF f.depth = 1 /\ f.terminated /\ m.fam \in {"fixed", "split", "fixedimp"} /\ ~f.cbAssigned /\ f.lastDtm # -1
+             /\ e.s.dtm # f.lastDtm
           THEN {"C04.RequestedStepRestoredAfterLandingOnAnEvent"} ELSE {})
     \cup (IF Some(m.rolled) /\ f.depth = 1 THEN {"C07.RolledBackRowNeverRestored", "C03.RolledBackRowNeverRestored"} ELSE {})
 UpdIntegrateRet(m, e, tr) ==
